@@ -240,7 +240,7 @@ func runC03(c *Ctx) {
 // delayedClosers: module functions in reach that call io.Copy(io.Discard, <conn>).
 func delayedClosers(p *Prog, reach map[*ssa.Function]bool) map[*ssa.Function]bool {
 	out := map[*ssa.Function]bool{}
-	for _, call := range p.callsInSet(reach, "io.Copy") {
+	for _, call := range p.callsInSet(reach, "io.Copy", "io.CopyBuffer") {
 		if isGlobalLoad(call.Common().Args[0], "io", "Discard") {
 			out[call.Parent()] = true
 		}
@@ -272,7 +272,7 @@ func c03Closer(c *Ctx, p *Prog, cio *connIO, wrap, d *ssa.Function, hcalls []ssa
 		if cm.IsInvoke() && cm.Method.Name() == "SetReadDeadline" && cio.mayBeConn(cm.Value) {
 			setRD = append(setRD, call)
 		}
-		if p.CalleeID(cm) == "io.Copy" && isGlobalLoad(cm.Args[0], "io", "Discard") {
+		if (p.CalleeID(cm) == "io.Copy" || p.CalleeID(cm) == "io.CopyBuffer") && isGlobalLoad(cm.Args[0], "io", "Discard") {
 			copies = append(copies, call)
 		}
 	})
